@@ -109,7 +109,10 @@ class SerializedFileBufferedCollection(FileBufferedCollection):
                     # multiple collections pointing to the same file, etc).
                     return
                 else:
-                    blob = self._encode(self._data)
+                    # The shared buffer entry holds the latest data saved by
+                    # any collection bound to this file; this instance's own
+                    # data may be stale if it only read or was never used.
+                    blob = cached_data["contents"]
 
                     # If the contents have not been changed since the initial read,
                     # we don't need to rewrite it.
